@@ -2884,7 +2884,7 @@ func (te *TemplateEngine) processImagePlaceholdersInParagraph(para *Paragraph, d
 		if matchStart > lastEnd {
 			beforeText := fullText[lastEnd:matchStart]
 			if strings.TrimSpace(beforeText) != "" {
-				beforePara := te.createTextParagraph(beforeText, para)
+				beforePara := te.sliceTextParagraph(para, lastEnd, matchStart)
 				result = append(result, beforePara)
 			}
 		}
@@ -2909,7 +2909,7 @@ func (te *TemplateEngine) processImagePlaceholdersInParagraph(para *Paragraph, d
 	if lastEnd < len(fullText) {
 		afterText := fullText[lastEnd:]
 		if strings.TrimSpace(afterText) != "" {
-			afterPara := te.createTextParagraph(afterText, para)
+			afterPara := te.sliceTextParagraph(para, lastEnd, len(fullText))
 			result = append(result, afterPara)
 		}
 	}
@@ -2937,6 +2937,28 @@ func (te *TemplateEngine) createTextParagraph(text string, originalPara *Paragra
 			Text: Text{Content: text},
 		}}
 	}
+
+	return newPara
+}
+
+// sliceTextParagraph 创建只包含原段落文本区间 [start,end) 的段落（偏移量按各run文本依次拼接后的字节计算）。
+// 与 createTextParagraph 不同，每一段文字留在它原来所在的run里，run格式不变
+func (te *TemplateEngine) sliceTextParagraph(originalPara *Paragraph, start, end int) *Paragraph {
+	newPara := te.cloneParagraph(originalPara)
+
+	runs := make([]Run, 0, len(newPara.Runs))
+	offset := 0
+	for _, run := range newPara.Runs {
+		runStart := offset
+		offset += len(run.Text.Content)
+		lo, hi := max(start, runStart), min(end, offset)
+		if lo >= hi {
+			continue // 该run的文字不在区间内
+		}
+		run.Text.Content = run.Text.Content[lo-runStart : hi-runStart]
+		runs = append(runs, run)
+	}
+	newPara.Runs = runs
 
 	return newPara
 }
